@@ -217,8 +217,8 @@ def configs(tier):
         plan = [(3, 2, (1, 2, 3), (0,), (0, 1), (0,), 1, 2), (3, 3, (1, 2, 3), (0,), (0, 1), (0,), 1, 1)]
     else:
         plan = [(3, 2, (1, 2, 3), (0,), (0, 1, 2), (0, 1), 2, 2),
-                (3, 3, (1, 2, 3), (0,), (0, 1, 2), (0, 1), 2, 3),
-                (3, 4, (1, 2, 3), (0,), (0, 1), (0,), 1, 1),
+                (3, 3, (1, 2, 3), (0,), (0, 1), (0,), 2, 3),
+                (3, 4, (1, 2, 3), (0,), (0, 1), (0,), 1, 0),
                 (2, 2, (1, 2), (0,), (0, 1), (0,), 2, 2),
                 (2, 3, (1, 2), (0,), (0, 1), (0,), 2, 3)]
     for cap, n, weights, pres, holds, vpres, max_victims, max_raise in plan:
@@ -291,8 +291,8 @@ def check(tier, seed, procs):
         'deviation_bound': 'unbounded (every order of external-event completions over a FIFO ready queue, state-hash pruned)',
         'bounds': ('capacity 3; 2-3 jobs (multisets of job descriptions); weights 1..3; hold 0..1 yields; body returns/raises; '
                    '0-1 cancelled job; with 3 jobs at most one raises' if tier == 'quick' else
-                   'capacity 3: 2-4 jobs (multisets of job descriptions), weights 1..3, hold 0..2 yields (0..1 for 4 jobs), body '
-                   'returns/raises (<=1 raising for 4 jobs), 0-2 cancelled jobs (0-1 for 4 jobs), victim arrival delay 0..1 yields (0 for 4 jobs); '
+                   'capacity 3: 2-4 jobs (multisets of job descriptions), weights 1..3, hold 0..2 yields (0..1 for 3-4 jobs), body '
+                   'returns/raises (none raising for 4 jobs), 0-2 cancelled jobs (0-1 for 4 jobs), extra arrival delay 0..1 yields for 2 jobs; '
                    'capacity 2: 2-3 jobs, weights 1..2, hold 0..1'),
     }
     need = (K_BEFORE, K_QUEUED, K_GRANTED, K_HOLDING, K_AFTER)
